@@ -112,7 +112,12 @@ def coq_build(pid, meta, log):
         vo = os.path.join(COQ, props[:-2] + ".vo")
         if os.path.exists(vo):
             os.remove(vo)
-        rc, out, dt = sh(["make", "-j16", props[:-2] + ".vo"], cwd=COQ, timeout=meta.get("coq_timeout", 1500))
+        targets = [props[:-2] + ".vo"]
+        # the shards import the corr module(s): keep them in step with the model
+        for c in sorted(glob.glob(os.path.join(COQ, "corr", pid + "_*.v"))) + \
+                [os.path.join(COQ, x) for x in meta.get("extra_coq", [])]:
+            targets.append(os.path.relpath(c, COQ)[:-2] + ".vo")
+        rc, out, dt = sh(["make", "-j16"] + targets, cwd=COQ, timeout=meta.get("coq_timeout", 1500))
     log.write("== make %s (rc=%d, %.1fs)\n%s\n" % (props, rc, dt, out))
     blocks = len(re.findall(r"Closed under the global context|^Axioms:", out, re.M))
     axioms = sorted(set(re.findall(r"^([A-Za-z_][\w.']*)\s*:", out[out.find("Axioms:"):], re.M))) if "Axioms:" in out else []
